@@ -20,10 +20,15 @@ from harness.core import Ctx, MachineryError
 CLAUSES = {"RenderNeverFails", "RenderedIsValidPython", "AssertionHoldsOnObservedValue"}
 MODEL = {"ObserverTotal", "ObserverFollowsSpec", "OutcomeFollowsModel"}
 
-# leaf classes / kinds to which a failing assertion is attributed, most specific first
-# (attribution only: it makes the signature; the verdict is TLC's)
-CULPRITS = ["i_digits", "complex", "e_str", "e_strquote", "e_flagcombo", "e_flagzero", "e_nested", "e_private",
-            "e_foreign", "o_local", "o_dynamic", "o_dict_keys", "o_generator"]
+# leaf classes / kinds to which a failing assertion is attributed, per observed exception, most specific
+# first (attribution only: it makes the signature; the verdict is TLC's)
+CULPRITS = {
+    "ValueError": ["i_digits"],
+    "CSTValidationError": ["complex", "e_str", "e_strquote", "e_flagcombo", "o_local"],
+    "TypeError": ["e_flagzero"],
+    "NameError": ["e_nested", "e_private", "e_foreign", "o_dict_keys", "o_generator"],
+    "AttributeError": ["o_dynamic"],
+}
 
 
 def leaves(term: dict):
@@ -50,7 +55,7 @@ def culprit(ev: dict) -> str:
             return "export-without-pytest-import"
         return brief(ev["case"]) if ev["case"]["k"] in ("float", "obj") else "float-in:" + brief(ev["case"])
     present = set(leaves(ev["case"]))
-    for c in CULPRITS:
+    for c in CULPRITS.get(ev["exc"], []):
         if c in present:
             return c
     return brief(ev["case"])
@@ -67,7 +72,7 @@ def describe(ev: dict) -> str:
 
 
 def design(ctx: Ctx) -> None:
-    ctx.design("Literals", "Literals.cfg")
+    ctx.design("Literals", "Literals.cfg" if ctx.quick else "Literals_thorough.cfg")
     res = tlc.run_tlc("Literals", "Literals_ascoded.cfg", workdir=ctx.work / "d-Literals-ascoded", cont=True)
     ctx._account("Literals(as coded)", res, "design-what-if")  # noqa: SLF001
     violated = sorted({v.name for v in res.violations})
